@@ -24,7 +24,7 @@ def generate(tier, seed):
     cases = []
     for name in sources.MULTICONF + ["4DFR.pdb", "1HPX.pdb"]:
         cases.append({"kind": "file", "file": name, "seed": "%d:%s" % (seed, name), "cost": 5 if name.startswith("conf") else 300})
-    n = 170 if tier == "quick" else 5000
+    n = 500 if tier == "quick" else 5000
     for k in range(n):
         cases.append({"kind": "built", "seed": "%d:b:%d" % (seed, k), "cost": 30})
     n = 25 if tier == "quick" else 500
@@ -72,8 +72,16 @@ def run_case(case, tier):
     multiconf.check_average(run.rec, viol, counts, classes)
     multiconf.check_topup(run.rec, text, ignore, viol, counts, classes)
     if twins:
+        # residues that share chain and number (insertion-code twins) are merged by label
+        # (known finding icode-twins-merged); only violations located ON such a residue are
+        # attributed to that mechanism
+        twin_ids = {k for k, v in seen.items() if len(v) > 1}
         for v in viol[before:]:
-            v["cls"] = "twins:" + v["cls"]
+            res = v.pop("res", None)
+            if res is not None and ((res[0] if res[0] != "_" else " "), res[1]) in twin_ids:
+                v["cls"] = "twins:" + v["cls"]
+    for v in viol:
+        v.pop("res", None)
     if len(names) == 1:
         counts["single_conformation_checks"] = 1
         diffs = obs.compare_confs(run.rec["confs"][names[0]], run.rec["confs"]["AVR"], tol=1e-9, dets=False,
